@@ -8,7 +8,7 @@ RULE = ('structured byte strings (mode-shaped alphabets mixed at run boundaries,
         'symbol lists (default, all, random subsets, pairs, singletons) x mode subsets (all 63, half of them without ASCII) x '
         'macros x FNC1; each case is encoded, its data codewords decoded and its rendered symbol decoded; '
         'non-trivial = encoding succeeded on a non-empty input')
-THEOREMS = 'C01_symbol_layer, C01_routes_agree, C01_ascii_plan_roundtrip, C01_ascii_only_roundtrip'
+THEOREMS = 'C01_symbol_layer, C01_routes_agree, C01_ascii_plan_roundtrip, C01_ascii_only_roundtrip, C01_base256_only_roundtrip'
 ASSUMPTIONS = ['the sort order of remove_hopeless_cases is taken from the implementation (hook trace) and validated as a sorted permutation']
 
 
